@@ -839,6 +839,75 @@ func c10EarlyProp(t *testing.T, r *hx.Run, sub string) func(c c10Early) hx.Verdi
 	}
 }
 
+// ---- a stop after an OPEN that could not be built
+
+// The plugin's first Firsts capability lists cannot be represented: corebgp dials, cannot build
+// its OPEN, drops the connection and tries again after the idle-hold time; the next list is fine
+// and the connection reaches OpenSent. Then the stop: every connection corebgp ever made for the
+// peer is closed when it returns.
+type c10Unenc struct {
+	API    string `json:"api"` // close, del
+	Firsts int    `json:"firsts"`
+}
+
+func c10UnencProp(t *testing.T, r *hx.Run, sub string) func(c c10Unenc) hx.Verdict {
+	return func(c c10Unenc) hx.Verdict {
+		r.SetCurrent(sub, c)
+		v := hx.Verdict{Class: fmt.Sprintf("%s/firsts=%d", c.API, c.Firsts)}
+		v.NT = fmt.Sprintf("%+v", c)
+		p := world.PeerSpec{Remote: "10.0.0.2", LocalAS: 64512, RemoteAS: 64513, Hold: 90, IdleHoldMs: 100, ConnRetryMs: 5000,
+			Plugin: world.PluginSpec{BigCapsFirst: c.Firsts}}
+		var dev *hx.Dev
+		fail := func(key, f string, a ...any) {
+			if dev == nil {
+				dev = hx.Devf(key, f, a...)
+			}
+		}
+		o := world.Run(t, func() {
+			w, err := world.New("10.0.0.1", nil)
+			if err != nil {
+				fail("setup", "%v", err)
+				return
+			}
+			defer w.Finish()
+			w.Net.SetPlans(p.RemoteAddr(), memnet.DialPlan{Kind: memnet.Accept})
+			if err := w.AddPeer(p); err != nil {
+				fail("setup", "%v", err)
+				return
+			}
+			w.Serve()
+			w.Settle()
+			if !w.Net.WaitDials(c.Firsts+1, time.Minute) {
+				fail("setup", "corebgp made %d dial attempts, %d expected", len(w.Net.Dials()), c.Firsts+1)
+				return
+			}
+			w.Settle()
+			var ok bool
+			var took time.Duration
+			if c.API == "close" {
+				ok, took = w.Call("Close", "", 5*time.Second, w.Srv.Close)
+			} else {
+				ok, took = w.Call("DeletePeer", p.Remote, 5*time.Second, func() { w.Srv.DeletePeer(p.RemoteAddr()) })
+			}
+			if !ok {
+				fail("stop-blocked", "%s did not return within %v", c.API, took)
+				return
+			}
+			for _, cn := range w.Net.Conns() {
+				if st := cn.Snapshot(); st.HandedOver && !st.LocalClosed {
+					fail("connection-left-open", "after %s returned, connection %d (dialled at %v; %d octets written on it) is still open", c.API, st.ID, st.CreatedS, len(st.Bytes()))
+					return
+				}
+			}
+		})
+		if b := o.Bad(); b != "" {
+			fail("wedge", "%s", b)
+		}
+		v.Dev = dev
+		return v
+	}
+}
+
 // ---- two overlapping Close calls
 
 // A session is Established; closing the listener takes a while (SpinUs). A second Close is
@@ -1012,6 +1081,16 @@ func TestC10(t *testing.T) {
 			}
 		}
 	}, c10Prop(t, r, "stop_when_dial_is_due"))
+
+	hx.Enum(r, t, "stop_after_unencodable_open", 0, func(yield func(c10Unenc) bool) {
+		for _, api := range []string{"close", "del"} {
+			for _, firsts := range []int{1, 2, 3} {
+				if !yield(c10Unenc{API: api, Firsts: firsts}) {
+					return
+				}
+			}
+		}
+	}, c10UnencProp(t, r, "stop_after_unencodable_open"))
 
 	hx.Enum(r, t, "two_closes", 0, func(yield func(c10Twice) bool) {
 		for _, out := range []bool{false, true} {
